@@ -1,10 +1,15 @@
 package main
 
 import (
+	"github.com/go-critic/go-critic/checkers"
 	"github.com/go-critic/go-critic/checkers/analyzer"
 	"golang.org/x/tools/go/analysis/singlechecker"
 )
 
 func main() {
+	// Same as cmd/go-critic: rule-based checkers are registered explicitly.
+	if err := checkers.InitEmbeddedRules(); err != nil {
+		panic(err)
+	}
 	singlechecker.Main(analyzer.Analyzer)
 }
